@@ -18,7 +18,8 @@ BUDGET = {"quick": (4, 42), "thorough": (16, 400)}
 EXHAUSTIVE = {"quick": False, "thorough": False}
 RULE = ("histories of 2-30 public-API calls (parse, resolve, expand_actions, 7 policy / resource queries, condition __call__ / eval, "
         "resolver.resolve) over a pool of 1-4 parsed models built from tplgen templates, condition-graph templates and hand-written "
-        "templates (Fn::Sub local maps, list / NoEcho / SSM parameters, IAM policies with Condition blocks), with SHARED argument objects "
+        "templates (Fn::Sub local maps, list / NoEcho / SSM parameters, IAM policies with Condition blocks; one history in five adds a policy that uses the "
+        "SAME wildcard text as an action pattern and as a case-sensitive condition value, queried in both roles in random order), with SHARED argument objects "
         "(one extra_params dict passed to many resolves, one template dict parsed repeatedly, one context dict evaluated by many conditions) "
         "and CHAINED receivers (results of earlier calls).  Around every call: deep snapshots of every pool object, the receiver, "
         "PSEUDO_PARAMETERS, CLOUDFORMATION_ACTIONS, GenericResource._strict, Parameter.NO_ECHO_*; every result is compared with the same call on "
